@@ -19,6 +19,11 @@ fn atoms() -> Vec<(&'static str, Vec<Op>)> {
         ("readdir", vec![Op::ReadDir { id: "d".into() }]),
         ("cached-leaf", vec![Op::Cached { ty: LEAF_A, id: "d.a3".into() }]),
         ("owned-node", vec![Op::Owned { ty: Ty::Node(0), id: "s0".into() }]),
+        // a type that opts out of hot-reloading, not cached yet: its reads are part of the outer load
+        ("load-optout-leaf", vec![Op::Load { ty: LEAF_S, id: "e.b0".into() }]),
+        ("owned-optout-leaf", vec![Op::Owned { ty: LEAF_S, id: "e.b1".into() }]),
+        // two extensions, only the second file exists: the probe of the first one is a read too
+        ("load-second-ext", vec![Op::Load { ty: LEAF_2, id: "e.m0".into() }]),
     ]
 }
 
@@ -99,6 +104,9 @@ fn run_recipe(rep: &mut Report, recipe: &[Op], tag: serde_json::Value, static_mo
         for l in LEAVES {
             w.seed_file(c, l, "a", &format!("{l}@c{c}#0"));
         }
+        w.seed_file(c, "e.b0", "a", &format!("e.b0@c{c}#0"));
+        w.seed_file(c, "e.b1", "a", &format!("e.b1@c{c}#0"));
+        w.seed_file(c, "e.m0", "q", &format!("e.m0.q@c{c}#0"));
         w.seed_file(c, "s0", "n0", "file d.a3 a load L10t d.a0");
         w.seed_file(c, "s1", "n0", "owned L10t d.a1");
         w.seed_file(c, "sp", "n0", "load L10t d.a2 panic");
@@ -120,9 +128,14 @@ fn run_recipe(rep: &mut Report, recipe: &[Op], tag: serde_json::Value, static_mo
         for n in ["s0", "s1", "sp"] {
             edits.push((c, n.to_string(), "n0".into()));
         }
+        edits.push((c, "e.b0".into(), "a".into()));
+        edits.push((c, "e.b1".into(), "a".into()));
+        edits.push((c, "e.m0".into(), "q".into()));
+        // creation of the file that was looked for and not found
+        edits.push((c, "e.m0".into(), "p".into()));
     }
     if cfg!(miri) {
-        edits.truncate(3);
+        edits = edits.into_iter().step_by(5).collect();
     }
     for (c, id, ext) in edits {
         version += 1;
@@ -178,8 +191,10 @@ pub fn run(args: &Args) -> Report {
     rep.rule = "recipes of the loaded compound enumerated as wrapper-chain(atom) + trailing operation: wrapper chains \
                 up to length 2 over {no_record, helper thread on the same cache, second cache with reloader, cache \
                 without reloader, helper thread on the second cache, catch_unwind around a nested load that panics, \
-                catch_unwind around a direct panic} x 9 atoms {raw file read, load / load_owned of a leaf, directory \
-                load, read_dir, load / try / load_owned of a nested compound, get_cached} x 3 trailing operations \
+                catch_unwind around a direct panic} x 12 atoms {raw file read, load / load_owned of a leaf, directory \
+                load, read_dir, load / try / load_owned of a nested compound, get_cached, load / load_owned of a \
+                not yet cached leaf whose type opts out of hot-reloading, load of a two-extension leaf of which \
+                only the second file exists (the missing first file is created later)} x 3 trailing operations \
                 (so that recording must have resumed); then one single-entry edit per involved file in both \
                 reloading caches, each its own pass: the set of handles whose reload id moved must equal the \
                 model's set exactly, and nothing else may change. Non-trivial = at least one pass reloaded \
